@@ -123,6 +123,8 @@ def new_scratch(tag):
 
 
 def cleanup_scratch():
+    if os.environ.get("QSX_KEEP_SCRATCH"):
+        return
     for d in _scratch_made:
         shutil.rmtree(d, ignore_errors=True)
     del _scratch_made[:]
